@@ -12,6 +12,7 @@ import (
 	"fmt"
 	"io"
 	"strings"
+	"time"
 
 	"google.golang.org/grpc"
 	"google.golang.org/grpc/metadata"
@@ -30,9 +31,13 @@ type cfgData struct {
 	part     string   // a, b, c
 	attempts []string // a: err nil n2err park ; b: per connection "dialerr" or recv script like "nne" (n notif, e err, f eof, p park, i infinite notifications ignoring Close)
 	closeAt  int      // round at which Close is issued; -1 before Subscribe; 99 never
-	cache    bool     // b: CacheClient instead of BaseClient
-	resps    string   // c: response sequence
-	qtype    client.Type
+	// ctxEnd: how the context given to Subscribe ends on its own: "" never,
+	// "cancel" the caller cancels it at round 1, "deadline" it carries a
+	// deadline (a virtual timer the explorer lets expire)
+	ctxEnd string
+	cache  bool   // b: CacheClient instead of BaseClient
+	resps  string // c: response sequence
+	qtype  client.Type
 }
 
 type harness struct{}
@@ -74,6 +79,17 @@ func configsBase(tier string) []xplore.Config {
 	// dialerr2 / S2: the dial / the Impl's Subscribe fails with an aggregate
 	// error (one that lists several causes, as an Impl trying every address
 	// of the destination would return)
+	// the caller's context ends by itself (cancellation or deadline), Close only afterwards
+	for _, sc := range seqsOf([]string{"err", "nil", "n2err", "park", "parknil"}, maxLen) {
+		for _, ce := range []string{"cancel", "deadline"} {
+			out = append(out, xplore.Config{Name: fmt.Sprintf("a: reconnect over scripted client attempts=%v context ends by %s, Close afterwards", sc, ce), Bound: bound - 1, Data: cfgData{part: "a", attempts: sc, closeAt: 99, ctxEnd: ce}})
+		}
+	}
+	for _, sc := range seqsOf([]string{"dialerr", "e", "nne", "np"}, maxLen) {
+		for _, ce := range []string{"cancel", "deadline"} {
+			out = append(out, xplore.Config{Name: fmt.Sprintf("b: reconnect over real client (cache=false) over scripted impl conns=%v context ends by %s, Close afterwards", sc, ce), Bound: bound - 1, Data: cfgData{part: "b", attempts: sc, closeAt: 99, ctxEnd: ce}})
+		}
+	}
 	for _, sc := range seqsOf([]string{"dialerr", "e", "nne", "nf", "np", "bbbp", "dialerr2", "S2"}, maxLen) {
 		for _, c := range closes {
 			for _, cache := range []bool{false, true} {
@@ -383,8 +399,16 @@ func (harness) Run(cfg xplore.Config, ch vrt.Chooser, trace bool) (xplore.Outcom
 		if d.closeAt == -1 {
 			doClose()
 		}
+		sctx, scancel := vcontext.Background(), func() {}
+		switch d.ctxEnd {
+		case "cancel":
+			sctx, scancel = vcontext.WithCancel(vcontext.Background())
+		case "deadline":
+			sctx, scancel = vcontext.WithTimeout(vcontext.Background(), time.Hour)
+		}
+		defer scancel()
 		vrt.GoNamed("subscribe", func() {
-			subErr = rc.Subscribe(vcontext.Background(), q)
+			subErr = rc.Subscribe(sctx, q)
 			subReturned = true
 			tr.add("SUBSCRIBE-RETURNED")
 		})
@@ -392,6 +416,10 @@ func (harness) Run(cfg xplore.Config, ch vrt.Chooser, trace bool) (xplore.Outcom
 		for round := 0; round < 6; round++ {
 			if d.closeAt == round {
 				vrt.GoNamed("closer", doClose)
+			}
+			if d.ctxEnd == "cancel" && round == 1 {
+				tr.add("CALLER-CANCEL")
+				scancel()
 			}
 			vrt.Idle()
 			if subReturned && (closeReturned || !closeInvoked) {
@@ -410,9 +438,20 @@ func (harness) Run(cfg xplore.Config, ch vrt.Chooser, trace bool) (xplore.Outcom
 			}
 		}
 		vrt.Idle()
+		if d.ctxEnd != "" {
+			// every timer (the deadline included) may expire now; once the caller's
+			// context has ended Subscribe returns by itself, Close is not needed
+			for i := 0; i < 8 && vrt.ArmedTimers() > 0 && !subReturned; i++ {
+				vrt.FireAny()
+				vrt.Idle()
+			}
+			if sctx.Err() != nil && !subReturned {
+				viol("subscribe-survives-context-end", "the context given to Subscribe ended (%v) and every timer was allowed to expire, but Subscribe did not return; parked: %v; trace: %s", sctx.Err(), vrt.ParkedInfo(), tr)
+			}
+		}
 		if !closeInvoked {
 			// never closed so far: the client must still be trying / streaming
-			if subReturned {
+			if subReturned && sctx.Err() == nil {
 				viol("subscribe-returned-unclosed", "Subscribe returned %v although the reconnecting client was never closed; trace: %s", subErr, tr)
 			}
 			doClose()
